@@ -143,14 +143,13 @@ func (l *fileBasedLoader) find(c px.Context, name px.TypedName) px.LoaderEntry {
 				if smartPath == nil {
 					return nil
 				}
-				smartPath.Instantiator()(c, l, name, origins)
-				entry := l.GetEntry(name)
-				if entry != nil {
-					if _, ok := entry.Value().(px.TypeSet); ok {
-						return entry
+				entry := l.instantiate(c, smartPath, name, origins)
+				if entry != nil && entry.Value() != nil {
+					if _, ok := entry.Value().(px.TypeSet); !ok {
+						panic(px.Error(px.NotExpectedTypeset, issue.H{`source`: origins[0], `name`: utils.CapitalizeSegment(l.moduleName)}))
 					}
 				}
-				panic(px.Error(px.NotExpectedTypeset, issue.H{`source`: origins[0], `name`: utils.CapitalizeSegment(l.moduleName)}))
+				return entry
 			}
 		default:
 			if !l.isGlobal() {
